@@ -194,13 +194,18 @@ func evaluate(c *Case, out *outcome, s liveSnap) verdict {
 
 	// (b) within both limits => no refusal
 	v.premiseB = !hostile && overIdx < 0 && c.Kind != "prefix"
-	if v.premiseB && c.Gzip && grpcFamily(c) {
+	if v.premiseB && grpcFamily(c) {
 		// narrowest reading of "within the limit": also the compressed frame
 		// (grpc-go itself bounds the frame length before inflating)
-		for _, enc := range c.Reqs {
-			if len(wire.Gzip(enc))+gzipMargin(c) > Lr {
+		for i, enc := range c.Reqs {
+			if c.flagged(i) && len(wire.Gzip(enc))+gzipMargin(c) > Lr {
 				v.premiseB = false
 			}
+		}
+		if c.Flags == "1-nohdr" {
+			// compressed-flag without a negotiated encoding: an error is
+			// legitimate; only "no over-limit delivery" is obliged
+			v.premiseB = false
 		}
 	}
 	if v.premiseB {
@@ -283,11 +288,14 @@ func gzipMargin(c *Case) int {
 }
 
 func afterInflation(c *Case) string {
-	if !c.Gzip {
+	if !c.Gzip && c.Flags != "1-nohdr" {
 		return ""
 	}
 	n := 0
 	if grpcFamily(c) && c.Probe < len(c.Reqs) {
+		if !c.flagged(c.Probe) {
+			return " sent uncompressed with flag 0 on a stream that negotiated gzip"
+		}
 		n = len(wire.Gzip(c.Reqs[c.Probe]))
 	} else {
 		_, _, _, body := httpParts(c)
@@ -609,6 +617,30 @@ func filler(l laneSpec, L int, i int, probe []byte, p padder) []byte {
 	return nil
 }
 
+// runModes runs a request-probe case and, on the in-process gRPC-family
+// lanes, the same messages again with every per-message flag mode that is
+// independent of the stream-level encoding header.
+func (g *gen) runModes(e *env, l laneSpec, c *Case) {
+	g.run(e, c)
+	if !grpcFamily(c) || c.Transport != "inproc" {
+		return
+	}
+	var modes []string
+	switch {
+	case l.gz && len(c.Reqs) >= 2:
+		modes = []string{"0", "alt01", "alt10"}
+	case l.gz:
+		modes = []string{"0"}
+	case len(c.Reqs) == 1:
+		modes = []string{"1-nohdr"}
+	}
+	for _, m := range modes {
+		cc := *c
+		cc.ID, cc.Flags = g.nextID(), m
+		g.run(e, &cc)
+	}
+}
+
 func (g *gen) reqProbes(e *env, l laneSpec, rng *rand.Rand, sizes map[string]int, order []string) {
 	L := e.lrecvEff()
 	p := padder{rng, l.gz}
@@ -635,7 +667,7 @@ func (g *gen) reqProbes(e *env, l laneSpec, rng *rand.Rand, sizes map[string]int
 			continue
 		}
 		c.Reqs, c.Probe, c.NRead = [][]byte{enc}, 0, 1
-		g.run(e, c)
+		g.runModes(e, l, c)
 		if !clientStreaming(c) {
 			continue
 		}
@@ -644,11 +676,11 @@ func (g *gen) reqProbes(e *env, l laneSpec, rng *rand.Rand, sizes map[string]int
 		if f0 != nil && f1 != nil {
 			c2 := mk()
 			c2.Reqs, c2.Probe, c2.NRead = [][]byte{f0, f1, enc}, 2, 3
-			g.run(e, c2)
+			g.runModes(e, l, c2)
 			if n <= L {
 				c3 := mk()
 				c3.Reqs, c3.Probe, c3.NRead = [][]byte{enc, f0}, 0, 2
-				g.run(e, c3)
+				g.runModes(e, l, c3)
 			}
 		}
 	}
@@ -713,9 +745,7 @@ func (g *gen) prefixProbes(e *env, l laneSpec, rng *rand.Rand) {
 		vals = []uint64{uint64(L) + 1, pow2(31) - 1, pow2(31), pow2(32) - 1, pow2(32), pow2(32) + 3, pow2(63) - 1, pow2(63), pow2(63) + 3, math.MaxUint64}
 	case grpcFamily(&Case{Proto: l.proto}) && l.codec == "proto" && l.shape != "ss":
 		vals = []uint64{uint64(L) + 1, pow2(31) - 1, pow2(31), pow2(31) + 3, pow2(32) - 1}
-		if l.gz {
-			flags = []byte{0, 1}
-		}
+		flags = []byte{0, 1} // per-frame flag, whatever the stream negotiated
 	default:
 		return
 	}
@@ -737,6 +767,12 @@ func (g *gen) prefixProbes(e *env, l laneSpec, rng *rand.Rand) {
 				}
 				c.NRead = len(c.Reqs) + 1
 				g.run(e, c)
+				if nfill == 1 && l.gz && grpcFamily(c) {
+					// the in-limit message before the hostile frame sent uncompressed
+					cc := *c
+					cc.ID, cc.Flags = g.nextID(), "0"
+					g.run(e, &cc)
+				}
 			}
 		}
 	}
@@ -796,7 +832,11 @@ func (g *gen) truncProbes(e *env, l laneSpec, rng *rand.Rand, with10L bool) {
 						c.Reqs, c.Probe, c.NRead = [][]byte{f, enc}, 1, 2
 					}
 				}
-				g.run(e, c)
+				if a.name == "L" {
+					g.runModes(e, l, c)
+				} else {
+					g.run(e, c)
+				}
 			}
 		}
 	}
